@@ -14,7 +14,8 @@
    ci_eq and EQUAL unless the token is a word (identifier / keyword);  node_sim: same kind, offset, range, children
    shape, identifiers ci_eq, attributes tok_sim;  decl_exact: every declaring node spells its name identically
    ("declarations left as written");  dot_ok: no later operand of a `.` starts where the left one starts (true of
-   every parsed tree: checked on every tree of the correspondence run; needed by the unused-variable rule only). *)
+   every parsed tree: checked on every tree of the correspondence run; it was needed by the unused-variable rule
+   before the repair of tools/c15_proposed_fix.diff only: C17_old_unused_var_guard_needed). *)
 From GoldV Require Import Base Tokens Keywords Lexer LexerProofs AstKinds Tree Strings PComb Grammar.
 From GoldV Require Import Outline UnusedVar Lints Recase RecaseBase RecaseLex RecaseComb RecaseGrammar RecaseTop.
 From GoldV Require Import RecaseOutline RecaseUnusedVar RecaseLints RecaseSummary.
@@ -148,19 +149,19 @@ Theorem C17_diagnostics :
   forall text text', text_recased text text' ->
     exists d d', document_of text = Some d /\ document_of text' = Some d' /\
       pd_diags d = pd_diags d' /\ pd_lexerrs d' = pd_lexerrs d /\
-      (decl_exact (pd_root d) (pd_root d') -> dot_ok (pd_root d) = true ->
+      (decl_exact (pd_root d) (pd_root d') ->
          analyze_today (pd_root d) = analyze_today (pd_root d') /\
          lints (pd_root d) = lints (pd_root d') /\
          fst (request (fresh_doc (pd_root d))) = fst (request (fresh_doc (pd_root d')))).
 Proof.
   intros text text' H. destruct (document_recased text text' H) as (d & d' & E & E' & Hs & Hp & Hl).
-  exists d, d'. repeat (split; [assumption|]). intros Hd Hk.
-  destruct (report_exact _ _ Hs Hd Hk) as (A & B & C & _). auto.
+  exists d, d'. repeat (split; [assumption|]). intros Hd.
+  destruct (report_exact _ _ Hs Hd) as (A & B & C & _). auto.
 Qed.
 
 (* on trees: every consumer at once *)
 Theorem C17_diagnostics_tree :
-  forall r r', node_sim r r' -> decl_exact r r' -> dot_ok r = true ->
+  forall r r', node_sim r r' -> decl_exact r r' ->
     analyze_today r = analyze_today r' /\ lints r = lints r' /\
     fst (request (fresh_doc r)) = fst (request (fresh_doc r')) /\
     map norm_detail (outline r) = map norm_detail (outline r').
@@ -169,7 +170,7 @@ Proof. exact report_exact. Qed.
 (* even when DECLARATIONS are re-cased too, the rules other than the naming rules give the same diagnostics, up to
    the letter case of the name they quote (return-type rule: identical) *)
 Theorem C17_diagnostics_non_naming :
-  forall r r', node_sim r r' -> dot_ok r = true ->
+  forall r r', node_sim r r' ->
     Forall2 diag_sim (analyze_today r) (analyze_today r') /\
     ret_type_lint r = ret_type_lint r' /\
     Forall2 ldiag_sim (unpurged_lint r) (unpurged_lint r') /\
@@ -187,15 +188,17 @@ Theorem C17_naming_recased_declaration_refuted :
   exists a a', node_sim a a' /\ naming_lint a <> naming_lint a'.
 Proof. exact naming_lint_recase_refuted. Qed.
 
-(* the guard dot_ok cannot be dropped for arbitrary trees (is_left_node compares identifier AND start position) *)
-Theorem C17_unused_var_guard_needed :
-  exists f f', node_sim f f' /\ decl_exact f f' /\ analyze_today f <> analyze_today f'.
-Proof. exact unusedvar_dot_guard_needed. Qed.
+(* the unused-variable rule as it was before the repair of tools/c15_proposed_fix.diff needed the guard dot_ok for
+   arbitrary trees (is_left_node compared identifier AND start position); the rule as it is agrees on those trees *)
+Theorem C17_old_unused_var_guard_needed :
+  exists f f', node_sim f f' /\ decl_exact f f' /\
+               analyze_old key_today f <> analyze_old key_today f' /\ analyze_today f = analyze_today f'.
+Proof. exact unusedvar_old_dot_guard_needed. Qed.
 
 (* the two rules as they were before /repo e5fd419 (unused variables) and ef936ba (purge) falsify the clause *)
 Theorem C17_old_unused_var_rule_refuted :
   exists f f', node_sim f f' /\ decl_exact f f' /\ dot_ok f = true /\
-               analyze (fun s => s) f <> analyze (fun s => s) f'.
+               analyze_old (fun s => s) f <> analyze_old (fun s => s) f'.
 Proof. exact unusedvar_exact_key_refuted. Qed.
 
 Theorem C17_old_purge_rule_refuted :
@@ -357,7 +360,7 @@ Print Assumptions C17_diagnostics_tree.
 Print Assumptions C17_diagnostics_non_naming.
 Print Assumptions C17_naming_reads_declarations_only.
 Print Assumptions C17_naming_recased_declaration_refuted.
-Print Assumptions C17_unused_var_guard_needed.
+Print Assumptions C17_old_unused_var_guard_needed.
 Print Assumptions C17_old_unused_var_rule_refuted.
 Print Assumptions C17_old_purge_rule_refuted.
 Print Assumptions C17_diagnostics_nonvacuous.
